@@ -27,6 +27,10 @@ CLAIMED = {
    text="Seeded exploration of feeding schedules over 1-3 live digest sinks (Sha256r, Sha256d, Hash160 and hmac::Hmac over each): messages with lengths on every padding/block boundary are cut by six fragmentation policies (1-byte dribble, block-aligned, cut at 55/56/57/63/64/65/111/112/119/120/127/128, random, zero-length fragments interleaved, one-shot) into update calls, with clone-forks, reverse(), reset and four finishing calls placed mid-stream, second messages after *_reset, plus the one-shot Hash::*, Hash::*_hmac and KDF::pbkdf2 entry points. Oracle: every finalisation equals the primitive-crate hash of exactly the bytes accepted since the last reset (reversed iff obtained through reverse()), forks are independent; HMAC/PBKDF2 equal textbook RFC 2104 / RFC 8018 compositions. Sampling; quick = 100k schedules.",
    note="sha2 / sha-1 / ripemd160 crates are the reference for the published algorithms. The adapters' io::Write impl is compiled out in every build of bsv (digest::impl_write! is gated on a `std` feature bsv does not define), so the io::Write fragmentation path of DESIGN.md does not exist and is not exercised. Reversed instances are never reset. HMAC/PBKDF2 and SHA-1/SHA-512/RIPEMD one-shots are reference-model oracles without a schedule dimension.",
    technique="deterministic simulation: seeded fragmentation/fork/reset scheduler over streaming digest sinks, model-based oracle"),
+ "C15": dict(section="4/C15", scenario="spend-net",
+   text="Seeded exploration of collaborative-build histories on one shared Transaction: builders append inputs/outputs, signers sign P2PK / P2PKH / m-of-n multisig inputs (CHECKSIG and *VERIFY forms, code separators at seeded positions incl. inside and after an always-taken OP_IF) through Transaction::sign with any of the 12 standard flag bytes at any point of the build, finalise assembles unlocking scripts through the library API, parties mutate one field after signing (version, locktime, own/other outpoint, own/other sequence, output value/script, output/input count, declared value, key byte, signature byte, flag byte, signature order, wrong signer), a byzantine peer signs the byte-reversed digest, the transaction is shipped through extended CBOR/JSON, and the validator runs Interpreter::from_transaction on the live object and the shipped copy. Oracle: accept iff every used signature's covered view (field table per flag, FORKID and legacy) is unchanged since signing, keys/order match and nothing was tampered - checked in both directions; live and shipped verdicts agree. Sampling; quick = 15k histories.",
+   note="The covered-view table is the model (40 lines, field level, not a byte-level preimage: byte layout is C03/C10). Value mutations are not generated for legacy-flag signatures (the original algorithm does not commit to the value). Ship applied only when faithful. Known findings: reversed-digest signatures accepted; separators inside/after a spliced conditional give the wrong subscript.",
+   technique="deterministic simulation: seeded multi-party sign/mutate/finalise/ship/validate scheduler with byzantine signer and tampering faults, covered-view model oracle"),
 }
 
 NA = {
